@@ -65,7 +65,8 @@ Definition fp_offsets_at (fp : list (list bool)) (o0 o1 : Z) : list (Z * Z) :=
     flat_map (fun b =>
       if fp_get fp a b && negb ((a =? o0) && (b =? o1)) then [(a - o0, b - o1)] else [])
       (zrange fw)) (zrange fh).
-(* offset=None: offset = footprint.shape // 2 *)
+(* the wrapper line `footprint = np.array(footprint, dtype=bool)` (fix F18) is the wire decoder
+   as_boolss: any non-zero entry is a member.  offset=None: offset = footprint.shape // 2 *)
 Definition fp_offsets (fp : list (list bool)) : list (Z * Z) :=
   fp_offsets_at fp (zlen fp / 2) (width fp / 2).
 
